@@ -30,8 +30,8 @@ def http_vectors(rng: random.Random, tier_: str) -> list[dict[str, Any]]:
     out: list[dict[str, Any]] = []
     day = dt('2024-02-29T00:00:00Z')
 
-    def add(tmpl: str, q: str, now: datetime.datetime) -> None:
-        out.append({'tmpl': tmpl, 'q': q, 'now': now})
+    def add(tmpl: str, q: str, now: datetime.datetime, stream: str = 'bbb') -> None:
+        out.append({'tmpl': tmpl, 'q': q, 'now': now, 'stream': stream})
 
     # explicit start a little before now: every sub-segment phase class around one loop seam
     ast = dt('2024-02-29T11:00:00Z')
@@ -84,6 +84,19 @@ def http_vectors(rng: random.Random, tier_: str) -> list[dict[str, Any]]:
                 tl = rng.choice([0, 1])
                 add('hand_made.mpd', f'start={wast.strftime("%Y-%m-%dT%H:%M:%SZ")}&depth=30' + ('&timeline=1' if tl else ''),
                     wast + sec(int(edge) + dl))
+    # explicit starts written with a UTC offset (the same instant as 11:00:00Z): the manifest forwards the resolved start to
+    # every media URL, so parsing and formatting of offsets must be inverse to each other
+    for off in ('%2B05:30', '-03:30', '%2B01:00', '-09:30', '-08:00'):
+        sign = 1 if off.startswith('%2B') else -1
+        hh, mm = off[-5:].split(':')
+        local = ast + sign * (sec(int(hh) * 3600 + int(mm) * 60))
+        for tl in ((0, 1) if tier_ == 'thorough' else (rng.choice([0, 1]),)):
+            add('hand_made.mpd', f'start={local.strftime("%Y-%m-%dT%H:%M:%S")}{off}&depth=30' + ('&timeline=1' if tl else ''),
+                ast + sec(rng.choice([130.5, 3600.25, 86399.0])))
+    # a stream whose text track is stored without tfdt boxes and with fragments of unequal duration (webvtt.mp4)
+    for tl in (0, 1):
+        for el in ((95.5, 137.25) if tier_ == 'quick' else (12.0, 41.0, 95.5, 137.25, 3601.0)):
+            add('hand_made.mpd', f'start={ast.strftime("%Y-%m-%dT%H:%M:%SZ")}&depth=30' + ('&timeline=1' if tl else ''), ast + sec(el), 'vtt')
     # the default window (30 minutes): partial walk (oldest, newest and a sample in between)
     add('hand_made.mpd', '', day + sec(50000.5))
     add('hand_made.mpd', 'timeline=1', day + sec(50003.999999))
@@ -166,9 +179,12 @@ def run(prop: str, tier_: str) -> int:
         vecs = http_vectors(rng, tier_)
         hlines: list[dict[str, Any]] = []
         with DashApp(d / 'app', fixtures=('bbb',)) as da:
+            from harness.core import REPO as _REPO
+            da.add_fixture('bbb', directory='vtt', title='stored without tfdt', only={'bbb_v7', 'bbb_a1'},
+                           extra=[(_REPO / 'tests' / 'fixtures' / 'webvtt.mp4', 'vtt_t2')])
             drv = HttpDriver(da)
             for i, v in enumerate(vecs):
-                hlines.extend(drv.live_manifest(i + 1, 'bbb', v['tmpl'], v['q'], v['now']))
+                hlines.extend(drv.live_manifest(i + 1, v.get('stream', 'bbb'), v['tmpl'], v['q'], v['now']))
             nreq = drv.requests
         rep_lines = [x for x in hlines if x['ev'] == 'rep']
         refused = [x for x in hlines if x['ev'] != 'rep']
